@@ -202,7 +202,12 @@ static int fi_parse(const char* plan) {
     if (sscanf(tok, "at:%c.%63[^#]#%d=%31s", &cls, name, &idx, kind) != 4) return -1;
     if (fi_nfaults >= MAXFAULTS) return -1;
     f = &fi_faults[fi_nfaults++];
-    f->cls = cls == 'W'; f->id = fi_name_id(strdup(name)); f->idx = idx; f->k = 0; f->err = 0;
+    {
+      int j, known = -1;
+      for (j = 0; j < fi_nnames; j++) if (!strcmp(fi_names[j], name)) known = j;
+      f->id = known >= 0 ? known : fi_name_id(strdup(name));
+    }
+    f->cls = cls == 'W'; f->idx = idx; f->k = 0; f->err = 0;
     if (kind[0] == 'I') f->k = atoi(kind + 1); else f->err = err_of_name(kind);
     if (f->k == 0 && f->err == 0) return -1;
   }
